@@ -93,6 +93,16 @@ let run_a ?(multi = false) (live : bool) (ops : string list) : string =
       let e = kth ci (int_of_string k) in
       focus := Some (n_of_dec c, e.s_term, e.s_index);
       do_op (wrap (OSkipReq (n_of_dec c, e.s_term, e.s_index)))
+    | "H" :: ents ->
+      (* the same call while the raft group is down (refused), then the group is created again: it reloads like a restart *)
+      let b = List.map (fun e -> match split_on '.' e with
+                | [c; t; i; ts; p; f] ->
+                  if int_of_string c > !maxc then maxc := int_of_string c;
+                  (sentry_of c t i ts p, f <> "b")
+                | _ -> failwith ("bad rpc entry " ^ e)) (List.filter (fun s -> s <> "") ents) in
+      let (nd1, r) = step !nd (ORpcDown b) in
+      let (nd2, _) = step nd1 ORestart in
+      nd := nd2; restarted := true; observe r
     | "B" :: ents ->
       (* B:c.t.i.ts.p.f:...  one ApplyRaftReqs call *)
       let b = List.map (fun e -> match split_on '.' e with
